@@ -28,11 +28,38 @@ fn bits_eq(a: &nalgebra::Isometry3<f64>, b: &nalgebra::Isometry3<f64>) -> bool {
 }
 
 /// Evaluate one (robot, joints) point. Returns (key, detail) failures.
+thread_local! {
+    static DECOY: OPWKinematics = OPWKinematics::new(make(0.07, 0.03, -0.02, [0.33, 0.41, 0.39, 0.06], [-1, 1, 1, -1, 1, -1], [0.1, -0.2, 0.3, 0.0, 0.5, -0.4], 6));
+}
+
 pub fn eval(p: &Parameters, q: &[f64; 6]) -> Vec<(String, String)> {
     let mut fails = Vec::new();
     let robot = OPWKinematics::new(*p);
+    // on an eighth of the points (chosen by the bits of q) an unrelated robot of the same thread is asked the same question
+    // first, and the robot under test is asked twice: forward kinematics must be a function of (parameters, joints) alone
+    let hq = q[0].to_bits() ^ q[2].to_bits().rotate_left(19) ^ q[4].to_bits().rotate_left(37) ^ p.c2.to_bits().rotate_left(11);
+    let probe = (hq ^ (hq >> 29)) % 8 == 0;
+    if probe {
+        DECOY.with(|d| {
+            let _ = (d.forward(q), d.forward_with_joint_poses(q));
+        });
+    }
     let fwd_na = robot.forward(q);
     let links_na = robot.forward_with_joint_poses(q);
+    if probe {
+        DECOY.with(|d| {
+            let _ = (d.forward_with_joint_poses(q), d.forward(q));
+        });
+        let again = robot.forward(q);
+        let links_again = robot.forward_with_joint_poses(q);
+        let same = |a: &nalgebra::Isometry3<f64>, b: &nalgebra::Isometry3<f64>| {
+            a.translation.vector.iter().zip(b.translation.vector.iter()).all(|(x, y)| x.to_bits() == y.to_bits())
+                && a.rotation.coords.iter().zip(b.rotation.coords.iter()).all(|(x, y)| x.to_bits() == y.to_bits())
+        };
+        if !same(&fwd_na, &again) || (0..6).any(|i| !same(&links_na[i], &links_again[i])) {
+            fails.push(("C03/not-a-function-of-its-arguments".to_string(), "two identical forward calls (an unrelated robot queried in between) returned different poses".to_string()));
+        }
+    }
     let fwd = from_na(&fwd_na);
     let refl = fkref::links(p, q);
     let tcp_ref = refl[5];
